@@ -54,11 +54,15 @@ class Gen:
                 marker[names[idx]] = None
         # a series with start = 1 stands for "identity + higher orders": its zeroth order must be exactly the
         # identity, so it is defined (like U in the shipped algorithms) from earlier series that start at 0
+        loose = set()
         for idx, n in enumerate(names):
-            if start[n] == 1 and not any(start[m] == 0 for m in names[:idx]):
+            if start[n] == 1 and r.random() < 0.3:
+                loose.add(n)  # only ever requested directly: "identity + something" cannot enter sums or products
+            elif start[n] == 1 and not any(start[m] == 0 for m in names[:idx]):
                 start[n] = 0
         self.names, self.inputs, self.start, self.marker, self.twins = names, inputs, start, marker, twins
         self.terminal = {n for n in names if start[n] == 1}
+        self.loose = loose
         self.zero_start = [n for n in names if start[n] == 0]
         self.products = {}
         lines = ["def prog_x():"]
@@ -66,6 +70,12 @@ class Gen:
             lines.append(f'    with "{n}":')
             if start[n] is not None:
                 lines.append(f"        start = {start[n]}")
+            if n in loose:
+                lines.append("        if offdiagonal:")
+                lines.append(f"            {self.lit(inputs)}")
+                if r.random() < 0.5:
+                    lines.append(f"        {self.lit(inputs)}")
+                continue
             if n in self.terminal:
                 pool = [m for m in names[:idx] if start[m] == 0]
                 e = self.lit(pool)
@@ -122,7 +132,7 @@ class Gen:
         if self.zero_start and r.random() < 0.5:
             fs = [r.choice(self.zero_start) for _ in range(nf)]  # recurrent: may refer to itself / later series
         else:
-            pool = self.inputs + self.names[:idx]
+            pool = [n for n in self.inputs + self.names[:idx] if n not in self.loose]
             fs = [r.choice(pool) for _ in range(nf)]
             if all(f in self.terminal for f in fs):
                 fs[0] = r.choice(self.inputs)
@@ -149,8 +159,10 @@ class Gen:
         if x < 0.86 and depth < 2 and fn_ok:
             inner = self.expr(idx, depth + 1, diagonal, nofn=not self.feat.get("nested_calls", True))
             return "f(%s)" % inner
-        if x < 0.93:
+        if x < 0.91:
             return "(zero if flag else %s)" % self.lit(pool)
+        if x < 0.96 and depth < 2:
+            return "(%s)" % self.expr(idx, depth + 1, diagonal, nofn)
         return "(%s if flags[index[0]] else %s)" % (self.lit(pool), self.lit(pool))
 
     def expr(self, idx, depth, diagonal, nofn=False):
